@@ -91,6 +91,10 @@ impl<'a, R: RoleX, T: IsPacketId> Gen<'a, R, T> {
         } else if style < 9 {
             let cut = 1 + self.rng.below(bytes.len() as u64 - 1) as usize;
             self.op(format!("recv {}", hex(&bytes[..cut])));
+            if self.rng.chance(1, 6) {
+                // the transport hands over an empty buffer in the middle of the frame
+                self.op("recv_empty".into());
+            }
             if self.rng.chance(1, 12) {
                 // transport lost mid-frame
                 self.op("closed".into());
@@ -176,6 +180,15 @@ impl<'a, R: RoleX, T: IsPacketId> Gen<'a, R, T> {
     }
 
     fn handshake(&mut self) {
+        if self.force_ok && self.legal && self.status() != "D" {
+            // a directed scenario starts on a new transport
+            self.op("closed".into());
+            self.my_ids.clear();
+            self.inflight.clear();
+            self.rel_wait.clear();
+            self.peer_pubs.clear();
+            self.subs.clear();
+        }
         self.started = true;
         let clean = self.force_clean.unwrap_or_else(|| self.rng.chance(1, 2));
         let force_ok = self.force_ok;
@@ -340,7 +353,11 @@ impl<'a, R: RoleX, T: IsPacketId> Gen<'a, R, T> {
                 _ => false,
             }
         });
-        if !owned && !free && !self.my_ids.contains(&id) {
+        if owned || free {
+            // the library took the identifier into an exchange, or released it: the application no
+            // longer holds it (contract: only identifiers it holds are released by it)
+            self.my_ids.retain(|x| *x != id);
+        } else if !self.my_ids.contains(&id) {
             self.my_ids.push(id);
         }
     }
@@ -358,11 +375,22 @@ impl<'a, R: RoleX, T: IsPacketId> Gen<'a, R, T> {
         if self.rng.chance(1, 8) {
             ps.push(P::U32(2, 60));
         }
-        if let Some(a) = with_alias {
-            ps.push(P::U16(35, a));
-        }
         if self.rng.chance(1, 8) {
             ps.push(P::Pair(b"key".to_vec(), b"val".to_vec()));
+        }
+        if with_alias.is_some() && self.rng.chance(1, 6) {
+            // the properties other than the alias total 124..129 bytes: with / without the 3-byte
+            // alias the property section's length field is one / two bytes wide
+            let other: usize = ps.iter().map(|p| match p { P::U8(..) => 2, P::U16(..) => 3, P::U32(..) => 5, P::Str(_, s) => 3 + s.len(), P::Pair(k, v) => 5 + k.len() + v.len() }).sum();
+            let target = 124 + self.rng.below(6) as usize;
+            if target >= other + 6 {
+                ps.push(P::Pair(b"k".to_vec(), vec![b'v'; target - other - 6]));
+            }
+        }
+        if let Some(a) = with_alias {
+            // anywhere in the list, not only at its end
+            let i = self.rng.below(ps.len() as u64 + 1) as usize;
+            ps.insert(i, P::U16(35, a));
         }
         ps
     }
@@ -1320,8 +1348,21 @@ fn walk<R: RoleX, T: IsPacketId>(role: &'static str, ver: u8, steps: usize, rng:
                     }
                 }
                 _ => {
-                    if g.rng.chance(1, 2) {
-                        g.op("closed".into());
+                    match g.rng.below(4) {
+                        0 | 1 => g.op("closed".into()),
+                        2 => {
+                            // the application obtains an identifier of its own (the same number as an
+                            // inbound exchange may carry) and gives it back unused
+                            g.op("acquire".into());
+                            if let Some(v) = g.last_ret().strip_prefix("ok") {
+                                let v = v.to_string();
+                                g.op(format!("release {v}"));
+                            }
+                        }
+                        _ => {
+                            let on = g.rng.below(2);
+                            g.op(format!("set off {on}"));
+                        }
                     }
                 }
             }
@@ -1567,6 +1608,151 @@ fn walk<R: RoleX, T: IsPacketId>(role: &'static str, ver: u8, steps: usize, rng:
             let b = w_publish(5, pw, q, false, false, b"a", 1, &[], &vec![0x43u8; rl - base]);
             g.op(format!("recv {}", hex(&b)));
         }
+    }
+    if g.legal && g.s.version() == 5 && g.rng.chance(1, 10) {
+        // directed: a stored PUBLISH / PUBREL is erased by the application at each point of an
+        // outbound QoS 2 exchange under a small Receive Maximum; the vacancy is asked for after every step
+        let pw = g.pw();
+        g.op("set apr 0".into());
+        g.force_ok = true;
+        g.force_persist = true;
+        g.force_peer_rm = Some(*g.rng.pick(&[1u16, 2, 2, 3]));
+        g.handshake();
+        g.force_peer_rm = None;
+        g.force_ok = false;
+        g.force_persist = false;
+        if g.status() == "C" {
+            let when = g.rng.below(4);
+            if g.rng.chance(2, 3) {
+                // another exchange stays in flight beside it
+                let id0 = g.fresh_id();
+                g.op(format!("send 5 {}", hex(&w_publish(5, pw, 1, false, false, b"a", id0, &[], b"q1"))));
+                g.after_send(id0);
+            }
+            let id = g.fresh_id();
+            g.op(format!("send 5 {}", hex(&w_publish(5, pw, 2, false, false, b"a", id, &[], b"q2"))));
+            g.after_send(id);
+            if when == 0 {
+                g.op(format!("erase {id}"));
+            }
+            g.op("vacancy".into());
+            g.op(format!("recv {}", hex(&w_ack(5, pw, 5, id, None, None))));
+            if g.pubrec_delivered(id) && g.pubrec_done(id) && when != 0 {
+                if when == 1 {
+                    g.op(format!("erase {id}"));
+                    g.op("vacancy".into());
+                }
+                g.op(format!("send 5 {}", hex(&w_ack(5, pw, 6, id, None, None))));
+                if when == 2 {
+                    g.op(format!("erase {id}"));
+                }
+                g.op("vacancy".into());
+                g.op(format!("recv {}", hex(&w_ack(5, pw, 7, id, None, None))));
+                g.op("vacancy".into());
+            }
+            for _ in 0..2 {
+                if g.status() == "C" {
+                    let id2 = g.fresh_id();
+                    g.op(format!("send 5 {}", hex(&w_publish(5, pw, 1, false, false, b"a", id2, &[], b"q1"))));
+                    g.after_send(id2);
+                    g.op("vacancy".into());
+                }
+            }
+        }
+        g.inflight.clear();
+    }
+    if g.legal && g.s.version() == 5 && g.acts_as_client() && g.rng.chance(1, 10) {
+        // directed: automatic alias replacement for a one / two byte topic (the alias property is
+        // longer than the topic it replaces) on packets sized at the peer's Maximum Packet Size
+        let pw = g.pw();
+        g.op("set arep 1".into());
+        let l = *g.rng.pick(&[20u32, 30, 40]);
+        g.force_ok = true;
+        g.force_peer_tam = Some(3);
+        g.force_peer_mps = Some(l);
+        g.handshake();
+        g.force_ok = false;
+        g.force_peer_tam = None;
+        g.force_peer_mps = None;
+        if g.status() == "C" {
+            let topic: &[u8] = *g.rng.pick(&[b"a" as &[u8], b"ab", b"abc"]);
+            g.op(format!("send 5 {}", hex(&w_publish(5, pw, 0, false, false, topic, 0, &[P::U16(35, 1)], b"r"))));
+            for delta in [-1i64, 0, 1] {
+                let s0 = w_publish(5, pw, 0, false, false, topic, 0, &[], &[]).len() as i64;
+                let n = (l as i64 + delta - s0).max(0) as usize;
+                g.op(format!("send 5 {}", hex(&w_publish(5, pw, 0, false, false, topic, 0, &[], &vec![7u8; n]))));
+            }
+        }
+    }
+    if g.legal && g.s.version() == 5 && !g.acts_as_client() && g.rng.chance(1, 10) {
+        // directed: the receive timer armed by the CONNECT's keep alive expires before the CONNACK;
+        // the CONNACK then carries Server Keep Alive 0 / another value; later traffic
+        let pw = g.pw();
+        g.force_ok = true;
+        g.force_ska = Some(*g.rng.pick(&[0u16, 0, 3]));
+        g.window_ops = vec!["timer R".into()];
+        g.handshake();
+        g.force_ok = false;
+        g.force_ska = None;
+        g.window_ops.clear();
+        for _ in 0..2 {
+            if g.status() == "C" {
+                g.op(format!("recv {}", hex(&w_simple(0xc0))));
+                g.op(format!("recv {}", hex(&w_publish(5, pw, 0, false, false, b"a", 0, &[], b"x"))));
+            }
+        }
+    }
+    if g.legal && g.s.version() == 5 && g.acts_as_client() && g.rng.chance(1, 10) {
+        // directed: the peer's Maximum Packet Size admits a PINGREQ (2 bytes) but no DISCONNECT with a
+        // reason code (3 bytes); the response / a keep-alive timer expires, a protocol error arrives
+        let pw = g.pw();
+        g.op("rto 1000".into());
+        g.force_ok = true;
+        g.force_peer_mps = Some(*g.rng.pick(&[2u32, 2, 3]));
+        g.handshake();
+        g.force_ok = false;
+        g.force_peer_mps = None;
+        if g.status() == "C" {
+            g.op(format!("send 5 {}", hex(&w_simple(0xc0))));
+            match g.rng.below(3) {
+                0 | 1 => {
+                    if g.s.armed[2] {
+                        g.op("timer P".into());
+                    }
+                }
+                _ => g.op(format!("recv {}", hex(&w_ack(5, pw, 4, 9, None, None)))),
+            }
+        }
+    }
+    if g.legal && g.s.version() != 0 && g.rng.chance(1, 10) {
+        // directed: options are changed while an inbound QoS 2 exchange of a persistent session is
+        // open; the transport is lost, the session resumed, the peer retransmits
+        let v = g.ver();
+        let pw = g.pw();
+        g.force_ok = true;
+        g.force_persist = true;
+        g.force_clean = Some(g.rng.chance(1, 2));
+        g.handshake();
+        if g.status() == "C" {
+            g.op(format!("recv {}", hex(&w_publish(v, pw, 2, false, false, b"a", 1, &[], b"in"))));
+            if g.s.field("apr") != "1" && g.rng.chance(1, 2) {
+                g.op(format!("send {} {}", v, hex(&w_ack(v, pw, 5, 1, None, None))));
+            }
+            let f = *g.rng.pick(&["off", "off", "apr", "aping"]);
+            let b = g.rng.below(2);
+            g.op(format!("set {f} {b}"));
+            if g.status() == "C" {
+                g.op("closed".into());
+                g.force_clean = Some(false);
+                g.handshake();
+                if g.status() == "C" {
+                    g.op(format!("recv {}", hex(&w_publish(v, pw, 2, true, false, b"a", 1, &[], b"in"))));
+                }
+            }
+        }
+        g.force_ok = false;
+        g.force_persist = false;
+        g.force_clean = None;
     }
     if !g.started && g.rng.chance(1, 6) {
         // resume from an export made by a previous process (before any connection of this object)
@@ -1879,7 +2065,14 @@ fn restore_trial<R: RoleX, T: IsPacketId>(role: &'static str, ver: u8, steps: us
             g.force_peer_mps = Some((base + *g.rng.pick(&[-1i64, 0, 0, 1])).max(1) as u32);
         }
     }
+    if g.rng.chance(1, 4) {
+        // configuration calls between CONNECT and CONNACK of the resuming connection
+        let f = *g.rng.pick(&["off", "off", "apr", "amap"]);
+        let b = g.rng.below(2);
+        g.window_ops = vec![format!("set {f} {b}")];
+    }
     g.handshake();
+    g.window_ops.clear();
     g.force_peer_mps = None;
     g.force_clean = None;
     g.force_ok = false;
